@@ -202,3 +202,68 @@ def yields_at(n: Node) -> int:
             if isinstance(x, (ast.Yield, ast.YieldFrom)):
                 c += 1
     return c
+
+
+# --------------------------------------------------------------------------
+# flow-sensitive reaching definitions
+# --------------------------------------------------------------------------
+
+
+def _binds(target: ast.AST, name: str) -> bool:
+    return any(isinstance(x, ast.Name) and x.id == name for x in ast.walk(target))
+
+
+def node_defines(n: Node, name: str) -> bool:
+    a = n.ast
+    if a is None:
+        return False
+    if n.kind == "for":
+        return _binds(a.target, name)
+    if n.kind == "with":
+        return any(i.optional_vars is not None and _binds(i.optional_vars, name) for i in a.items)
+    if n.kind == "handler":
+        return a.name == name
+    if isinstance(a, ast.Assign):
+        return any(_binds(t, name) for t in a.targets if not isinstance(t, (ast.Attribute, ast.Subscript)))
+    if isinstance(a, (ast.AnnAssign, ast.AugAssign)):
+        return isinstance(a.target, ast.Name) and a.target.id == name
+    if isinstance(a, (ast.FunctionDef, ast.AsyncFunctionDef, ast.ClassDef)):
+        return a.name == name
+    for x in walk_expr(a):
+        if isinstance(x, ast.NamedExpr) and isinstance(x.target, ast.Name) and x.target.id == name:
+            return True
+    return False
+
+
+def reaching_defs(g: CFG, nid: int, name: str) -> List[Node]:
+    """Definition nodes of `name` that reach node nid (exclusive) along some path."""
+    preds = g.preds()
+    seen, out, todo = set(), [], [p for _l, p in preds[nid]]
+    while todo:
+        cur = todo.pop()
+        if cur in seen:
+            continue
+        seen.add(cur)
+        n = g.nodes[cur]
+        if node_defines(n, name):
+            out.append(n)
+            continue
+        todo.extend(p for _l, p in preds[cur])
+    return out
+
+
+def flows_from_calls(g: CFG, n: Node, e: ast.AST, calls, depth: int = 3) -> bool:
+    """Flow-sensitive: can the value of e at node n come from one of the Call nodes?"""
+    ids = {id(c) for c in calls}
+    for x in walk_expr(e):
+        if id(x) in ids:
+            return True
+    if depth <= 0:
+        return False
+    for x in walk_expr(e):
+        if isinstance(x, ast.Name) and isinstance(x.ctx, ast.Load):
+            for d in reaching_defs(g, n.id, x.id):
+                src = d.ast.iter if d.kind == "for" else (d.ast.items[0].context_expr if d.kind == "with" else getattr(d.ast, "value", None))
+                if src is not None and flows_from_calls(g, d, src, calls, depth - 1):
+                    return True
+    return False
